@@ -136,10 +136,16 @@ def plan_seq(pid, tier, seed, ncpu):
             js += con_jobs(bindirs["dbg"], workdir, known, pid, "burstn", seed, 3, rounds=scale(tier, 18, 300))
             js += con_jobs(bindirs["dbg"], workdir, known, pid, "burst1", seed, 1, rounds=scale(tier, 20, 300))
             js += con_jobs(bindirs["dbg"], workdir, known, pid, "baton", seed, 2, programs=scale(tier, 800, 20000), schedules=10)
+            # release profile (no debug_assert): counters that drift low let the cache grow past its capacity
+            js += con_jobs(bindirs["rel"], workdir, known, pid, "baton", seed + 5, 2, programs=scale(tier, 1200, 30000), schedules=10, variant="rel")
+            js += con_jobs(bindirs["rel"], workdir, known, pid, "chase", seed + 5, 2, programs=scale(tier, 200, 6000), schedules=3, variant="rel")
+            js += con_jobs(bindirs["dbg"], workdir, known, pid, "chase", seed, 1, programs=scale(tier, 100, 3000), schedules=3)
             if tier == "thorough":
                 js += con_jobs(bindirs["rel"], workdir, known, pid, "burstn", seed + 5, 4, rounds=200, variant="rel")
         if pid == "C16":
             js += con_jobs(bindirs["dbg"], workdir, known, pid, "iter", seed, 4, rounds=scale(tier, 40, 1000))
+            js += con_jobs(bindirs["dbg"], workdir, known, pid, "baton", seed, 3, programs=scale(tier, 1200, 30000), schedules=10)
+            js += con_jobs(bindirs["dbg"], workdir, known, pid, "stress", seed, 1, programs=scale(tier, 150, 4000), schedules=5)
         return js
 
     if pid in ("C03", "C07", "C10"):
@@ -160,7 +166,7 @@ def plan_seq(pid, tier, seed, ncpu):
                       "key exactly once, value written by an insert that began before the iteration ended and not replaced by a write that completed before it began.")
     fl = {k: int(v * (1 if tier == "quick" else min(mult, 10))) for k, v in floors.items()}
     fl.update(extra_floors)
-    variants = ["dbg"] + (["rel"] if ((tier == "thorough" and pid == "C04") or pid in ("C03", "C10")) else [])
+    variants = ["dbg"] + (["rel"] if pid in ("C03", "C04", "C10") else [])
     return dict(variants=variants, jobs=jobs, floors=fl,
                 rule=rule + extra_rule, assumptions=COMMON_ASSUMPTIONS + (CON_ASSUMPTIONS[len(COMMON_ASSUMPTIONS):] if extra_rule else []),
                 watchdog_s=scale(tier, 900, 7200))
@@ -345,7 +351,7 @@ def asan_wrap(jobs, prop):
     return with_prefix(jobs, "asan_")
 
 
-def miri_jobs(workdir, known, prop, specs, seed, tree_borrows=False):
+def miri_jobs(workdir, known, prop, specs, seed, tree_borrows=False, watchdog_s=1500):
     """specs: list of (bin, [args]) ; each becomes one `cargo miri run`."""
     jobs = []
     flags = "-Zmiri-disable-isolation -Zmiri-permissive-provenance" + (" -Zmiri-tree-borrows" if tree_borrows else "")
@@ -354,7 +360,7 @@ def miri_jobs(workdir, known, prop, specs, seed, tree_borrows=False):
         argv = ["cargo", "+nightly", "miri", "run", "--offline", "--target-dir", os.path.join(TARGET_DIR, "miri"), "--bin", b, "--",
                 "--prop", prop, "--out", out, "--known", ",".join(known)] + a
         j = dict(name="miri-%s-%d%s" % (b, n, "-tb" if tree_borrows else ""), argv=argv, out=out, kind="report", cwd=HARNESS_DIR,
-                 env={"MIRIFLAGS": flags, "RUSTFLAGS": "--cfg mini_moka_verif"}, watchdog_s=1500)
+                 env={"MIRIFLAGS": flags, "RUSTFLAGS": "--cfg mini_moka_verif"}, watchdog_s=watchdog_s)
         j["crash_handler"] = miri_crash(prop, "MIRIFLAGS='%s' RUSTFLAGS='--cfg mini_moka_verif' %s" % (flags, " ".join(argv)))
         jobs.append(j)
     return with_prefix(jobs, "miri_")
@@ -521,11 +527,11 @@ def plan_c08_c11(pid, tier, seed, ncpu):
         js += asan_wrap(aj, pid)
         specs = [("dequemon", ["--seed", str(seed * 13 + i), "--cases", str(scale(tier, 20, 150)), "--ops", "40"]) for i in range(scale(tier, 2, 4))]
         specs += [("seqmon", ["--profile", "safety", "--seed", str(seed * 17 + i), "--histories", str(scale(tier, 8, 60)), "--ops", "30", "--light", "1", "--drop-percent", "30"]) for i in range(scale(tier, 4, 8))]
-        specs += [("conmon", ["--mode", "baton", "--seed", str(seed * 19 + i), "--programs", str(scale(tier, 2, 10)), "--schedules", "2", "--watchdog-secs", "1200"]) for i in range(scale(tier, 2, 4))]
+        specs += [("conmon", ["--mode", "baton", "--seed", str(seed * 19 + i), "--programs", str(scale(tier, 2, 10)), "--schedules", "2", "--watchdog-secs", str(scale(tier, 240, 900))]) for i in range(scale(tier, 2, 4))]
         if thorough:
-            specs += [("conmon", ["--mode", "stress", "--seed", str(seed * 23 + i), "--programs", "6", "--schedules", "2", "--watchdog-secs", "1200",
+            specs += [("conmon", ["--mode", "stress", "--seed", str(seed * 23 + i), "--programs", "6", "--schedules", "2", "--watchdog-secs", "900",
                                   "--big-every", "1000000", "--chase-every", "1000000"]) for i in range(4)]
-        js += miri_jobs(workdir, known, pid, specs, seed)
+        js += miri_jobs(workdir, known, pid, specs, seed, watchdog_s=scale(tier, 600, 2400))
         if thorough:
             tb = [("dequemon", ["--seed", str(seed * 29 + i), "--cases", "100", "--ops", "40"]) for i in range(2)]
             tb += [("seqmon", ["--profile", "safety", "--seed", str(seed * 37 + i), "--histories", "40", "--ops", "30", "--light", "1"]) for i in range(2)]
